@@ -33,10 +33,11 @@ type Scn struct {
 	Alt          bool
 	DisableMouse bool
 	DisableKitty bool
-	KStack       []int // terminal's kitty keyboard stack at start
-	Shape        int   // terminal's cursor style at start
-	NoDECRQSS    bool  // terminal does not answer the cursor-style query (then Shape is 0)
-	PreSet       []int `json:",omitempty"` // gated modes already set when the session starts
+	KStack       []int  // terminal's kitty keyboard stack at start
+	Shape        int    // terminal's cursor style at start
+	NoDECRQSS    bool   // terminal does not answer the cursor-style query (then Shape is 0)
+	PreSet       []int  `json:",omitempty"` // gated modes already set when the session starts
+	TermID       string `json:",omitempty"` // XTVERSION name; "tmux 3.4" implements mode 2027 without reporting it
 	Steps        []string
 	ConLog       string `json:",omitempty"` // where the session log is written (set by the parent for child runs)
 }
@@ -89,6 +90,7 @@ func Execute(sc *Scn) *Result {
 	}
 	res := &Result{}
 	caps := responder.FromMask(sc.Mask, sc.Alt)
+	caps.XTVersion = sc.TermID
 	caps.CursorStyle = sc.Shape
 	if sc.NoDECRQSS {
 		caps.CursorStyle = -1
@@ -329,6 +331,8 @@ var Templates = [][]string{
 	{"suspend", "resume", "suspend", "resume", "frame", "suspend", "resume", "close"},
 	{"frame", "hidecursor", "suspend"},
 	{"frame", "frame", "frame", "suspend", "resume", "hidecursor", "close"},
+	{"frame", "suspend", "close"}, // quitting while suspended
+	{"suspend", "resume", "suspend", "close", "close2"},
 }
 
 var CrashTemplates = [][]string{
@@ -372,6 +376,12 @@ func Gen(configs []int, crash bool) []*Scn {
 			if (ci+ti)%5 == 4 {
 				sc.PreSet = []int{2027, 2031} // the user's terminal already has these modes on
 				sc.Kind += "+preset"
+			}
+			if (ci+ti)%7 == 3 && mask&(1<<1) == 0 && sc.PreSet == nil {
+				// tmux 3.4 lays text out per Unicode without having mode 2027 (it ignores the mode):
+				// Vaxis's quirk for it must not disturb the restore bookkeeping
+				sc.TermID = "tmux 3.4"
+				sc.Kind += "+tmux34"
 			}
 			out = append(out, sc)
 		}
